@@ -54,7 +54,7 @@ const (
 // ---------------------------------------------------------------- scenarios / results
 
 type advOp struct {
-	Op  string `json:"op"` // flip dup drop swap splice replaycp delaycps flipbyte
+	Op  string `json:"op"` // flip dup drop swap splice replaycp delaycps dropwindow flipbyte
 	I   int    `json:"i"`
 	J   int    `json:"j"`
 	Fld string `json:"fld"`
@@ -1205,6 +1205,25 @@ func (h *harness) applyAdv(fr []*frame, op advOp, rng *mrand.Rand, maxSeq uint64
 		c.touched = true
 		c.origIdx = 0
 		return insertAfter(j, c), fmt.Sprintf("%s(frame=%d,after=%d)", op.Op, i+1, j)
+	case "dropwindow":
+		// window k = every frame after the (k-1)-th checkpoint frame up to and including the k-th one
+		var cps []int
+		for idx, f := range fr {
+			if f.typ == replication.MsgReplicateCheckpoint {
+				cps = append(cps, idx)
+			}
+		}
+		if len(cps) == 0 {
+			return fr, ""
+		}
+		k := clampIdx(op.I, len(cps))
+		from := 0
+		if k > 0 {
+			from = cps[k-1] + 1
+		}
+		to := cps[k]
+		out := append([]*frame(nil), fr[:from]...)
+		return append(out, fr[to+1:]...), fmt.Sprintf("dropwindow(k=%d,frames=%d..%d)", k+1, from+1, to+1)
 	case "delaycps":
 		// every checkpoint frame is held back until the entry frame that follows it has gone through
 		out := append([]*frame(nil), fr...)
